@@ -326,23 +326,36 @@ def model_prepare(drv, case, pre_records):
     return None
 
 
-def replay_model(drv, recs):
-    """model must already hold the pre-crash world under crash.save. Returns first disagreement (what, impl, model) or None."""
+def _replay_once(drv, recs, choice, cands_out):
     drv.ask("crash.restore")
-    for r in recs:
+    for i, r in enumerate(recs):
         if r["step"][0] != "build":
             continue   # the memo file does not exist in the model: a memo that loads as empty or coherent changes nothing
         if r["died"]:
             cs = crash_summary(r)
             if any(p is None for p in cs["picks"]):
                 return ("unknown task names at protocol entry", cs["picks"], None)
-            ans = drv.ask(f"crash.at {engine.cfg_model_args(r['cfg'], r['spec'], engine.sel_eval)} "
-                          f"picks={','.join(map(str, cs['picks']))} k={cs['k_model']}")
+            args = f"{engine.cfg_model_args(r['cfg'], r['spec'], engine.sel_eval)} picks={','.join(map(str, cs['picks']))}"
+            st = drv.ask(f"crash.steps {args}")
+            if not st.startswith("ok "):
+                return ("model rejects the crash replay", cs, st)
+            steps = [x for x in st.split("steps=", 1)[1].split(",") if x]
+            nw = cs["k_model"] - cs["state_commits"]
+            # prefixes of the model's step list that contain exactly the observed number of product writes
+            ks, seen = [], 0
+            for k in range(len(steps) + 1):
+                if k > 0 and steps[k - 1].startswith("w"):
+                    seen += 1
+                if seen == nw:
+                    ks.append(k)
+            cands_out[i] = ks
+            k = choice.get(i, cs["k_model"])
+            ans = drv.ask(f"crash.at {args} k={k}")
             if not ans.startswith("ok "):
                 return ("model rejects the crash replay", cs, ans)
             kv = dict(p.split("=", 1) for p in ans[3:].split(" "))
-            if int(kv["applied"]) != cs["k_model"]:
-                return ("the killed process made more atomic updates than the model's build has steps", cs["k_model"], kv["n"])
+            if int(kv["applied"]) != k:
+                return ("the killed process made more atomic updates than the model's build has steps", k, kv["n"])
             d = _compare_fs(kv["fs"], r["post"])
             if d:
                 return ("after the kill: " + d[0], d[1], d[2])
@@ -351,3 +364,23 @@ def replay_model(drv, recs):
             if d:
                 return ("recovery build: " + d[0], d[1], d[2])
     return None
+
+
+def replay_model(drv, recs):
+    """The model must already hold the pre-crash world under crash.save. Returns the first disagreement (what, impl, model) or None.
+
+    The number of atomic updates before the kill is taken from the observation log (product writes from the body log, row
+    commits from the `state` commits seen). If that replay disagrees, every other prefix of the model's step list with the same
+    number of product writes is tried before a disagreement is reported, so that a refactoring which batches the row commits
+    differently (same kill-point worlds up to the number of rows) does not break the tie."""
+    import itertools
+    cands = {}
+    d = _replay_once(drv, recs, {}, cands)
+    if d is None:
+        return None
+    keys = sorted(cands)
+    combos = list(itertools.islice(itertools.product(*[cands[i] for i in keys]), 60))
+    for combo in combos:
+        if _replay_once(drv, recs, dict(zip(keys, combo)), {}) is None:
+            return None
+    return d
